@@ -74,6 +74,21 @@ def mon_mapping_asset(case, ev, prefix='asset'):
         # dispatch rows carry a node
         d = m[m['type'] == 'd']
         case.check(prefix + '.dispatch_has_node', bool(d['node'].notnull().all()) and not (d['node'] == 'nan').any(), nonvacuous=len(d) > 0, **who)
+    # assets whose single dispatch variable acts in several nodes (transport: -1 / +efficiency; multi-commodity: one factor per node):
+    # every variable must carry the same time steps in each of the asset's nodes
+    if ev.args.get('cls') in ('Transport', 'ExtendedTransport', 'MultiCommodityContract') and obj is not None and len(obj.nodes) > 1:
+        d = m[m['type'] == 'd']
+        per_node = {}
+        for idx, node, t in zip(d.index, d['node'], d['time_step']):
+            per_node.setdefault(str(node), {}).setdefault(int(idx), []).append(int(t))
+        sets = [{k: sorted(v) for k, v in dd.items()} for dd in per_node.values()]
+        okm = len(per_node) == len(set(obj.node_names)) and all(x == sets[0] for x in sets[1:])
+        bad = None
+        if not okm and len(sets) > 1:
+            for k in sets[0]:
+                if any(x.get(k) != sets[0][k] for x in sets[1:]):
+                    bad = {'variable': k, 'steps_per_node': {n: dd.get(k) for n, dd in zip(per_node, sets)}}; break
+        case.check(prefix + '.multi_node_rows_consistent', okm, nonvacuous=len(d) > 0, **who, bad=bad)
     if 'disp_factor' in m.columns:
         df = np.asarray(m['disp_factor'], dtype=float)
         d_rows = np.asarray(m['type'] == 'd')
